@@ -32,7 +32,11 @@ func zzH_SRV() {
 	}
 	s, svc := zzNewServer(log, pipelining, directIO, false, shared)
 	svc.yield = true
+	exact := vParam("srv.exactfit", 0) == 1
 	bufSize := []int{8, 64, 16, 32}[vChoose("bufsize", vParam("srv.bufsizes", 2))]
+	if exact {
+		bufSize = []int{16, 32}[vChoose("bufsize-exact", 2)]
+	}
 	s.SetBufferSize(bufSize)
 	m := newZZMsgs(8)
 	m.yieldW = false
@@ -40,11 +44,23 @@ func zzH_SRV() {
 	reqs := make([]zzReqSpec, n)
 	for i := 0; i < n; i++ {
 		k := vChoose("kind", kinds)
+		if vParam("srv.menu", 0) == 1 {
+			k = []int{0, 7, 5}[k%3] // directed menu: plain call, rejected frame, ping
+		}
 		r := zzReqSpec{seq: uint64(i + 1), kind: k, method: zzKindMethod[k]}
 		if k != 5 {
 			// 1 or 10 bytes; with srv.arglens=4 also 4 and 20 bytes, which make the request frame exactly
 			// 16 resp. 32 bytes long = the capacity of the 16/32-byte read buffers
-			r.args = vBytesN("args", []int{1, 10, 4, 20}[vChoose("arglen", vParam("srv.arglens", 2))])
+			if exact {
+				// request frame = 12 + len(args) bytes: exactly the capacity of the 16/32-byte read
+				// buffer; contents concrete and distinct per request
+				r.args = make([]byte, []int{4, 20}[vChoose("arglen-exact", 2)])
+				for x := range r.args {
+					r.args[x] = byte(0x41 + i)
+				}
+			} else {
+				r.args = vBytesN("args", []int{1, 10, 4, 20}[vChoose("arglen", vParam("srv.arglens", 2))])
+			}
 		}
 		reqs[i] = r
 	}
